@@ -173,11 +173,18 @@ def track(prog, upto, mine):
     return mine, regs
 
 
-def run_case(case, gen_rng=None, res=None):
+class _Stopped(Exception):
+    """the harness had to stop the real execution of a message (nqcase.Runner's guards): the case ends here"""
+
+
+def run_case(case, gen_rng=None, res=None, insn_limit=nqcase.INSN_LIMIT):
     """case = {seed, cap, maxq, gens: [[step, ...], ...]}; a step is [node, kind, ...].  With gen_rng the steps
-    are generated and recorded.  -> (violations [(key, what, (generation, step index))], runner)"""
+    are generated and recorded.  -> (violations [(key, what, (generation, step index))], runner)
+    Every subroutine here is straight-line (one instruction executed per line).  netqasm's executor has no step
+    bound and runs in this process, so nqcase.Runner stops a message after nqcase.INSN_LIMIT instructions or
+    nqcase.WALL_LIMIT seconds; that is the violation `nonterminating-subroutine` and ends the case."""
     cap = case["cap"]
-    runner = nqcase.Runner(NAMES, cap, random.Random(case["seed"]), max_regs=case.get("regs"))
+    runner = nqcase.Runner(NAMES, cap, random.Random(case["seed"]), max_regs=case.get("regs"), insn_limit=insn_limit)
     mine = {n: None for n in NAMES}       # addresses the node's application holds, as WE know (None: unknown)
     used0 = {n: set() for n in NAMES}     # physical addresses already marked used when the application started
     node_id = runner.node_id
@@ -188,6 +195,19 @@ def run_case(case, gen_rng=None, res=None):
 
     def add(key, what, where):
         viol.append((key, what, where))
+
+    def send(where, node, kind, **kw):
+        rec = runner.send(node, kind, **kw)
+        ab = rec["aborted"]
+        if ab:
+            n = len(rec["prog"]) if rec["prog"] is not None else 0
+            how = ("had started %d instructions when the harness stopped it" % ab["insns"] if ab["guard"] == "insn" else
+                   "was still busy after %.0f s of wall-clock time (%d instructions started)" % (ab["seconds"], ab["insns"]))
+            add(nqcase.NONTERM_KEY, "%s: %s message%s: the real executor %s; operations so far %s; outcomes so far %s"
+                % (node, kind, " (straight-line subroutine of %d instructions: %s)" % (n, nqcase.render_prog(rec["prog"])) if n else "",
+                   how, [nqcase.show_op(o) for o in rec["ops"][:12]], nqcase.bits(rec["outs"][:24])), where)
+            raise _Stopped()
+        return rec
 
     for gi in range(ngens):
         steps = [] if gen_rng is not None else list(case["gens"][gi])
@@ -205,16 +225,16 @@ def run_case(case, gen_rng=None, res=None):
             if kind == "init":
                 active[node] = step[2]
                 mine[node] = set()
-                rec = runner.send(node, "init", app=step[2], maxq=step[3])
+                rec = send(where, node, "init", app=step[2], maxq=step[3])
                 used0[node] = set(runner.executor(node)._used_physical_qubit_addresses)
                 if [x[0] for x in rec["replies"]] != ["MsgDoneMessage"]:
                     add("init-reply", "InitNewApp(app %d) on %s answered %s" % (step[2], node, [x[0] for x in rec["replies"]]), where)
                 return rec
             if kind == "open":
-                return runner.send(node, "open", app=active[node], sock=0, remote=node_id[peer])
+                return send(where, node, "open", app=active[node], sock=0, remote=node_id[peer])
             if kind == "stop":
                 before_peer = runner.counts(peer)
-                rec = runner.send(node, "stop", app=active[node])
+                rec = send(where, node, "stop", app=active[node])
                 stopped[node] = True
                 mine[node] = None
                 if g is not None:
@@ -238,7 +258,7 @@ def run_case(case, gen_rng=None, res=None):
             um_before = list(runner.unit_module(node) or [])
             ql_before = sorted(runner.nq.facs[node].qubitList)
             nd = runner.nq.nodes[node]
-            rec = runner.send(node, "sub", app=app, body=step[3], note=sub)
+            rec = send(where, node, "sub", app=app, body=step[3], note=sub)
             if not rec["quiescent"]:
                 add("hang", "%s did not become quiescent after a %s subroutine" % (node, sub), where)
             failed = "ErrorMessage" in [x[0] for x in rec["replies"]]
@@ -306,72 +326,80 @@ def run_case(case, gen_rng=None, res=None):
                 add("delivered-half-lost", "%s could not measure the half it received (%s)" % (node, [e[:80] for e in rec["errors"]][:1]), where)
             return rec
 
-        if gen_rng is None:
-            for si, step in enumerate(steps):
-                do(step)
-        else:
-            rng = gen_rng
-            plan_nodes = [n for n in NAMES if rng.random() < 0.85] or [rng.choice(NAMES)]
-            maxq = {n: rng.randrange(2, 5) for n in NAMES}
-            app_id = {n: rng.randrange(3) for n in NAMES}
-            pending = {n: 0 for n in NAMES}            # halves delivered to n and not yet received (this generation)
+        halted = False
+        try:
+            if gen_rng is None:
+                for si, step in enumerate(steps):
+                    do(step)
+            else:
+                rng = gen_rng
+                plan_nodes = [n for n in NAMES if rng.random() < 0.85] or [rng.choice(NAMES)]
+                maxq = {n: rng.randrange(2, 5) for n in NAMES}
+                app_id = {n: rng.randrange(3) for n in NAMES}
+                pending = {n: 0 for n in NAMES}            # halves delivered to n and not yet received (this generation)
 
-            def step(*s):
-                s = list(s)
-                rec = do(s)
-                steps.append(s)
-                return rec
-            for n in plan_nodes:
-                step(n, "init", app_id[n], maxq[n])
-                step(n, "open")
-            live = list(plan_nodes)
-            budget = rng.randrange(2, 9)
-            while live:
-                n = rng.choice(live)
-                peer = other(n)
-                choices = ["local"] * 4
-                if budget <= 0:
-                    choices = ["stop"]
-                else:
-                    choices += ["stop"]
-                    free = g.free_addrs(n)
-                    if free:
-                        room = (runner.counts(n)["virt"] + 2 <= cap) and (runner.counts(peer)["virt"] + 1 <= cap)
-                        room = room and runner.nq.nodes[n].numRegs + 2 <= runner.nq.nodes[n].maxRegs   # two fresh qubits
-                        if room or rng.random() < 0.12:   # mostly when both ends have room (else: F13 class)
-                            choices += ["create"] * 3
-                        if pending[n] > 0:
-                            choices += ["recv"] * 5
-                        elif rng.random() < 0.08:
-                            choices += ["recv"]          # nothing was sent: time-out
-                c = rng.choice(choices)
-                budget -= 1
-                if c == "stop":
-                    step(n, "stop")
-                    live.remove(n)
-                elif c == "local":
-                    k, body = g.local_body(n)
-                    if body:
-                        step(n, "sub", k, body)
-                elif c == "create":
-                    free = g.free_addrs(n)
-                    npairs = 1 if len(free) < 2 or rng.random() < 0.7 else 2
-                    vs = rng.sample(free, npairs)
-                    if rng.random() < 0.08:
-                        vs[0] = maxq[n] + 1               # address outside the unit module: hand-over fails
-                    rec = step(n, "sub", "create", nqcase.epr_create_text(vs, node_id[peer]))
-                    pending[peer] += sum(1 for o in rec["ops"] if o[0] == "send" and o[2])
-                elif c == "recv":
-                    free = g.free_addrs(n)
-                    npairs = 1 if pending[n] < 2 or len(free) < 2 or rng.random() < 0.6 else 2
-                    vs = rng.sample(free, npairs)
-                    rec = step(n, "sub", "recv", nqcase.epr_recv_text(vs, node_id[peer]))
-                    got = sum(1 for o in rec["ops"] if o[0] == "claim")
-                    pending[n] -= got
-                    ok = "ErrorMessage" not in [x[0] for x in rec["replies"]]
-                    if ok and got:
-                        step(n, "sub", "use-half", "set Q0 %d\nmeas Q0 M0\nret_reg M0" % vs[0])
+                def step(*s):
+                    s = list(s)
+                    try:
+                        rec = do(s)
+                    finally:
+                        steps.append(s)       # also when the harness stopped it: the replay needs the step
+                    return rec
+                for n in plan_nodes:
+                    step(n, "init", app_id[n], maxq[n])
+                    step(n, "open")
+                live = list(plan_nodes)
+                budget = rng.randrange(2, 9)
+                while live:
+                    n = rng.choice(live)
+                    peer = other(n)
+                    choices = ["local"] * 4
+                    if budget <= 0:
+                        choices = ["stop"]
+                    else:
+                        choices += ["stop"]
+                        free = g.free_addrs(n)
+                        if free:
+                            room = (runner.counts(n)["virt"] + 2 <= cap) and (runner.counts(peer)["virt"] + 1 <= cap)
+                            room = room and runner.nq.nodes[n].numRegs + 2 <= runner.nq.nodes[n].maxRegs   # two fresh qubits
+                            if room or rng.random() < 0.12:   # mostly when both ends have room (else: F13 class)
+                                choices += ["create"] * 3
+                            if pending[n] > 0:
+                                choices += ["recv"] * 5
+                            elif rng.random() < 0.08:
+                                choices += ["recv"]          # nothing was sent: time-out
+                    c = rng.choice(choices)
+                    budget -= 1
+                    if c == "stop":
+                        step(n, "stop")
+                        live.remove(n)
+                    elif c == "local":
+                        k, body = g.local_body(n)
+                        if body:
+                            step(n, "sub", k, body)
+                    elif c == "create":
+                        free = g.free_addrs(n)
+                        npairs = 1 if len(free) < 2 or rng.random() < 0.7 else 2
+                        vs = rng.sample(free, npairs)
+                        if rng.random() < 0.08:
+                            vs[0] = maxq[n] + 1               # address outside the unit module: hand-over fails
+                        rec = step(n, "sub", "create", nqcase.epr_create_text(vs, node_id[peer]))
+                        pending[peer] += sum(1 for o in rec["ops"] if o[0] == "send" and o[2])
+                    elif c == "recv":
+                        free = g.free_addrs(n)
+                        npairs = 1 if pending[n] < 2 or len(free) < 2 or rng.random() < 0.6 else 2
+                        vs = rng.sample(free, npairs)
+                        rec = step(n, "sub", "recv", nqcase.epr_recv_text(vs, node_id[peer]))
+                        got = sum(1 for o in rec["ops"] if o[0] == "claim")
+                        pending[n] -= got
+                        ok = "ErrorMessage" not in [x[0] for x in rec["replies"]]
+                        if ok and got:
+                            step(n, "sub", "use-half", "set Q0 %d\nmeas Q0 M0\nret_reg M0" % vs[0])
+        except _Stopped:
+            halted = True
         gens_out.append(steps)
+        if halted:
+            break              # no consistency checks on a network the harness interfered with
         # ---- network-wide consistency once everything of this generation is over
         tot = {k: sum(runner.counts(n)[k] for n in NAMES) for k in ("virt", "sim", "inbox")}
         if tot["virt"] != tot["sim"]:
@@ -390,7 +418,8 @@ def run_case(case, gen_rng=None, res=None):
 def shrink(case, key):
     def shows(c):
         try:
-            v, _ = run_case(c)
+            # straight-line subroutines of a few dozen instructions: a low instruction limit for the candidates
+            v, _ = run_case(c, insn_limit=nqcase.SHRINK_INSN_FLOOR)
         except Exception:
             return False
         return any(k == key for k, _w, _i in v)
